@@ -43,8 +43,8 @@ def cmd_replay(a):
     with open(a.file) as f:
         spec = json.load(f)
     if spec.get("engine") == "bmc":
-        from vf.bmc import replay as breplay
-        return breplay.main(spec)
+        from vf.bmc import replay_cli
+        return replay_cli.main(spec)
     sys.argv = ["vf.replay", a.file, "--human"]
     return replay.main()
 
